@@ -29,6 +29,9 @@ type c03World struct {
 	dead   []*mOutput            // deleted outputs (with their old index and bridge in Tuples[0].Bridge)
 	paid   map[string]bool       // "bridge/leafhex"
 	log    []string
+	// accepted: the claims the chain has paid, as they were sent
+	accepted []*ophosttypes.MsgFinalizeTokenWithdrawal
+	episodes int
 }
 
 func cloneMsg(m *ophosttypes.MsgFinalizeTokenWithdrawal) *ophosttypes.MsgFinalizeTokenWithdrawal {
@@ -210,7 +213,7 @@ var c03Rich, _ = math.NewIntFromString("1180591620717411303424") // 2^70
 var c03Kinds = []string{"none", "flip-storage", "flip-blockhash", "flip-proof", "version", "seq", "amount", "amount+2^64", "bridge", "index", "swap-from-to",
 	"other-storage", "other-blockhash", "drop-last", "drop-first", "dup-item", "swap-items", "extend", "empty-proof", "cut-to-inner", "other-pos-proof",
 	"from-case", "from-nul", "move-byte", "denom", "to-other-user", "dead-output", "inner-as-root", "to-uppercase",
-	"lengthen-blockhash", "lengthen-storage", "shorten-blockhash", "lengthen-version", "extend-many", "denom-l2-twin", "hex-item", "blank-from", "blank-to", "from-tail", "to-tail", "reverse-proof"}
+	"lengthen-blockhash", "lengthen-storage", "shorten-blockhash", "lengthen-version", "extend-many", "denom-l2-twin", "hex-item", "blank-from", "blank-to", "from-tail", "to-tail", "reverse-proof", "empty-version"}
 
 // perturb applies one perturbation kind in place; returns false if it does not apply.
 func (w *c03World) perturb(rt *rapid.T, kind string, m *ophosttypes.MsgFinalizeTokenWithdrawal, o *mOutput, pos int) bool {
@@ -234,7 +237,12 @@ func (w *c03World) perturb(rt *rapid.T, kind string, m *ophosttypes.MsgFinalizeT
 			return false
 		}
 		return flip(m.WithdrawalProofs[rapid.IntRange(0, len(m.WithdrawalProofs)-1).Draw(rt, "item")])
+	case "empty-version":
+		m.Version = []byte{} // the version byte left out altogether
 	case "version":
+		if len(m.Version) == 0 {
+			return false
+		}
 		m.Version[0] ^= byte(1 << rapid.IntRange(0, 7).Draw(rt, "vbit"))
 	case "seq":
 		m.Sequence += uint64(rapid.SampledFrom([]int64{1, -1, 256}).Draw(rt, "dseq"))
@@ -420,6 +428,7 @@ func (w *c03World) tryClaim(m *ophosttypes.MsgFinalizeTokenWithdrawal) (handlerO
 	if r.OK() && m.Amount.Amount.IsUint64() {
 		leaf := ref.Leaf(m.BridgeId, m.Sequence, m.From, m.To, m.Amount.Denom, m.Amount.Amount.Uint64())
 		w.paid[fmt.Sprintf("%d/%x", m.BridgeId, leaf)] = true
+		w.accepted = append(w.accepted, cloneMsg(m))
 	}
 	if r.OK() != refOK {
 		return r.OK(), refOK, reason, fmt.Errorf("handler accepted=%v, reference verifier says %v (%s); handler error: %v", r.OK(), refOK, reason, r.Err)
@@ -458,17 +467,38 @@ func TestC03Rapid(t *testing.T) {
 				// the copied root on bridge 2: the honest claim names bridge 2 but the leaves commit to bridge 1
 				base.BridgeId = b
 			}
+			if rapid.IntRange(0, 5).Draw(rt, "challengeEpisode") == 0 {
+				// ordinary life between claims: the proposer submits a further output, the challenger deletes it while
+				// it is pending. What has been paid stays paid, what is stored stays as it is.
+				eb := uint64(rapid.IntRange(1, 2).Draw(rt, "episodeBridge"))
+				idx := uint64(len(w.outs[eb]) + 1)
+				w.episodes++
+				if r := w.e.Deliver(ophosttypes.NewMsgProposeOutput(w.users[0].Str, eb, idx, idx*100+50+uint64(w.episodes), rapid.SliceOfN(rapid.Byte(), 32, 32).Draw(rt, "episodeRoot"))); r.OK() {
+					if r := w.e.Deliver(ophosttypes.NewMsgDeleteOutput(w.users[1].Str, eb, idx)); !r.OK() {
+						rt.Fatalf("harness: the challenger could not delete the pending output %d of bridge %d: %v", idx, eb, r.Err)
+					}
+					w.log = append(w.log, fmt.Sprintf("bridge %d: output %d proposed and deleted again", eb, idx))
+					c.Class("output-proposed-and-deleted-between-claims")
+				}
+			}
 			m := cloneMsg(base)
 			k1 := rapid.SampledFrom(c03Kinds).Draw(rt, "kind")
 			k2 := "none"
-			if rapid.IntRange(0, 5).Draw(rt, "two") == 0 {
-				k2 = rapid.SampledFrom(c03Kinds).Draw(rt, "kind2")
-			}
-			if !w.perturb(rt, k1, m, o, pos) {
-				k1 = "none"
-			}
-			if !w.perturb(rt, k2, m, o, pos) {
-				k2 = "none"
+			if len(w.accepted) > 0 && rapid.IntRange(0, 5).Draw(rt, "replay") == 0 {
+				// a claim the chain has already paid, sent again byte for byte
+				m = cloneMsg(w.accepted[rapid.IntRange(0, len(w.accepted)-1).Draw(rt, "replayOf")])
+				base = cloneMsg(m)
+				k1 = "replay-of-a-paid-claim"
+			} else {
+				if rapid.IntRange(0, 5).Draw(rt, "two") == 0 {
+					k2 = rapid.SampledFrom(c03Kinds).Draw(rt, "kind2")
+				}
+				if !w.perturb(rt, k1, m, o, pos) {
+					k1 = "none"
+				}
+				if !w.perturb(rt, k2, m, o, pos) {
+					k2 = "none"
+				}
 			}
 			baseOK, _ := w.refVerdict(base)
 			hOK, rOK, reason, err := w.tryClaim(m)
